@@ -131,9 +131,10 @@ def _variables(elements, out):
     for e in elements:
         k = e["kind"]
         if k == "module":
-            out.append('<module name="%s"/>' % escape(e["name"], {'"': "&quot;"}))
+            cons = "".join('<connect to="%s" from="%s"/>' % (escape(t, {'"': "&quot;"}), escape(f, {'"': "&quot;"})) for (t, f) in e.get("connects", []))
+            out.append('<module name="%s">%s</module>' % (escape(e["name"], {'"': "&quot;"}), cons))
             continue
-        out.append('<%s name="%s">' % (k, escape(e["name"], {'"': "&quot;"})))
+        out.append('<%s name="%s"%s>' % (k, escape(e["name"], {'"': "&quot;"}), ' access="%s"' % e["access"] if e.get("access") else ""))
         out.append('<eqn>%s</eqn>' % escape(e["eqn"]))
         for f in e.get("inflows", []):
             out.append('<inflow>%s</inflow>' % escape(f))
@@ -156,7 +157,7 @@ def _variables(elements, out):
         out.append('</%s>' % k)
 
 
-def document(name, run, elements, reciprocal=None, modules=None):
+def document(name, run, elements, reciprocal=None, modules=None, connects=None, modules_first=False):
     """elements: list of dict(kind=stock|flow|aux, name, eqn=str, inflows=[], outflows=[], non_negative=bool,
     gf=dict(xscale=(min,max), ypts=[..]) | dict(xpts=[..], ypts=[..]))
     modules: optional {module name: elements}: further <model name=..> sections; the root model declares them."""
@@ -170,13 +171,17 @@ def document(name, run, elements, reciprocal=None, modules=None):
         out.append('<dt reciprocal="true">%d</dt>' % reciprocal)
     else:
         out.append('<dt>%s</dt>' % run["dt"])
-    out.append('</sim_specs><model><variables>')
-    _variables([dict(kind="module", name=mn) for mn in (modules or {})] + list(elements), out)
-    out.append('</variables></model>')
+    out.append('</sim_specs>')
+    root, subs = [], []
+    root.append('<model><variables>')
+    _variables([dict(kind="module", name=mn, connects=(connects or {}).get(mn, [])) for mn in (modules or {})] + list(elements), root)
+    root.append('</variables></model>')
     for mn, els in (modules or {}).items():
-        out.append('<model name="%s"><variables>' % escape(mn, {'"': "&quot;"}))
-        _variables(els, out)
-        out.append('</variables></model>')
+        subs.append('<model name="%s"><variables>' % escape(mn, {'"': "&quot;"}))
+        _variables(els, subs)
+        subs.append('</variables></model>')
+    # connects: {module name: [(to, from), ...]}; modules_first lists the sub-models before the model that contains their <module>
+    out += (subs + root) if modules_first else (root + subs)
     out.append('</xmile>')
     return "\n".join(out)
 
